@@ -115,7 +115,7 @@ class World:
             for o in t['outs']:
                 h = self.recv[o['acct']][o['addr'] % len(self.recv[o['acct']])]
                 if o.get('kind', 'p2pkh') == 'claim':
-                    outs.append(Output.pay_claim_name_pubkey_hash(o['amount'], 'name%d' % ti, b'\x01\x02', h))
+                    outs.append(Output.pay_claim_name_pubkey_hash(o['amount'], o.get('name', 'name%d' % ti), b'\x01\x02', h))
                 else:
                     outs.append(Output.pay_pubkey_hash(o['amount'], h))
             if t.get('purchase'):
@@ -233,6 +233,50 @@ def make_pre(world, case, made, rid_of):
     return pre, pre_desc
 
 
+
+def new_claim(title):
+    from lbry.schema.claim import Claim
+    c = Claim()
+    c.stream.title = title
+    return c
+
+
+def via_constructor(world, case, made, rid_of, funding, change_acc):
+    """the case goes through one of Transaction's own constructors (pay, claim_create, claim_update, support, purchase)
+    instead of create: returns (awaitable, the outputs as requested - built independently here -, pre, pre_desc)"""
+    ledger = world.ledger
+    d = case['outs'][0]
+    via = case['via']
+    addr = lambda h: ledger.hash160_to_address(h)      # noqa
+    pre, pre_desc = [], []
+    if via == 'pay':
+        h = bytes([d.get('tag', 7)]) * 20
+        want = [Output.pay_pubkey_hash(d['amount'], h)]
+        call = Transaction.pay(d['amount'], addr(h), funding, change_acc)
+    elif via == 'purchase':
+        want = [Output.pay_pubkey_hash(d['amount'], b'\x06' * 20), Output.add_purchase_data(Purchase(CLAIM_ID))]
+        call = Transaction.purchase(CLAIM_ID, d['amount'], addr(b'\x06' * 20), funding, change_acc)
+    elif via == 'support':
+        want = [Output.pay_support_pubkey_hash(d['amount'], d['name'], CLAIM_ID, b'\x05' * 20)]
+        call = Transaction.support(d['name'], CLAIM_ID, d['amount'], addr(b'\x05' * 20), funding, change_acc)
+    elif via == 'claim_create':
+        claim = new_claim('created')
+        want = [Output.pay_claim_name_pubkey_hash(d['amount'], d['name'], claim, b'\x05' * 20)]
+        call = Transaction.claim_create(d['name'], claim, d['amount'], addr(b'\x05' * 20), funding, change_acc)
+    elif via == 'claim_update':
+        prev = made[tuple(d['prev_ref'])]
+        claim = new_claim('second version')
+        # what was requested: the same name, byte for byte, and the same claim id
+        name = case['txs'][d['prev_ref'][0]]['outs'][d['prev_ref'][1]]['name']
+        want = [Output.pay_update_claim_pubkey_hash(d['amount'], name, prev.claim_id, claim, b'\x05' * 20)]
+        call = Transaction.claim_update(prev, claim, d['amount'], addr(b'\x05' * 20), funding, change_acc)
+        txi = Input.spend(prev)
+        pre, pre_desc = [txi], [[rid_of[prev.id], prev.amount, txi.size]]
+    else:
+        raise ValueError(via)
+    return call, want, pre, pre_desc
+
+
 async def run_create(world, case, made=None):
     """returns (impl, obs): impl = canonical observables compared with the model; obs = everything the monitor needs"""
     ledger = world.ledger
@@ -246,12 +290,23 @@ async def run_create(world, case, made=None):
     rid_of = {r['txoid']: r['rid'] for r in all_rows}
     est = await ledger.get_effective_amount_estimators(funding)
     est_order = [rid_of[e.txo.id] for e in est]
-    pre, pre_desc = make_pre(world, case, made, rid_of)
-    outs = make_outputs(case['outs'])
+    call = None
+    if case.get('via'):
+        call, outs, pre, pre_desc = via_constructor(world, case, made, rid_of, funding, change_acc)
+    else:
+        pre, pre_desc = make_pre(world, case, made, rid_of)
+        outs = make_outputs(case['outs'])
     outs_before = [(o.amount, bytes(o.script.source)) for o in outs]
     RecordingRandom.log = []
     RecordingRandom.source = random.Random(case.get('seed', 0))
     res_before = await world.reserved_txoids()
+    if case.get('change_used'):
+        # every address of the change chain has been used and the receiving chain needs topping up as well
+        await world.sql("UPDATE pubkey_address SET used_times = 1, history = 'x:1:' WHERE address IN "
+                        "(SELECT address FROM account_address WHERE account = ? AND chain = 1)", (change_acc.id,))
+        await world.sql("UPDATE pubkey_address SET used_times = 1, history = 'x:1:' WHERE address IN "
+                        "(SELECT address FROM account_address WHERE account = ? AND chain = 0 ORDER BY n DESC LIMIT 3)",
+                        (change_acc.id,))
     tx, exc = None, None
     # injected faults at the signing step: a locked (encrypted) account, or inputs of the ghost account
     fault = bool(case.get('sign')) and (bool(case.get('locked')) or GHOST in case['funding'])
@@ -259,7 +314,10 @@ async def run_create(world, case, made=None):
         for acc in funding:
             acc.encrypt('password')
     try:
-        tx = await Transaction.create(pre, outs, funding, change_acc, sign=bool(case.get('sign')))
+        if call is not None:
+            tx = await call
+        else:
+            tx = await Transaction.create(pre, outs, funding, change_acc, sign=bool(case.get('sign')))
     except InsufficientFundsError:
         exc = 'InsufficientFundsError'
     except Exception as e:  # noqa
@@ -269,11 +327,18 @@ async def run_create(world, case, made=None):
         if case.get('locked'):
             for acc in funding:
                 acc.decrypt('password')
+    change_chain = None
+    if tx is not None and len(tx.outputs) > len(outs):
+        cho = list(tx.outputs)[len(outs)]
+        if cho.script.is_pay_pubkey_hash:
+            got = await world.sql("SELECT chain, account FROM account_address WHERE address = ?",
+                                  (ledger.hash160_to_address(cho.script.values['pubkey_hash']),))
+            change_chain = [(r['chain'], r['account']) for r in got]
     ghost_rows = await world.rows([world.accounts[GHOST]])
     res_after = await world.reserved_txoids()
     shuffles = [[[rid_of[i] for i in a], [rid_of[i] for i in b]] for a, b, _ in RecordingRandom.log]
     obs = {'rows_before': rows_before, 'rid_of': rid_of, 'est_order': est_order, 'pre_desc': pre_desc, 'outs': outs,
-           'outs_before': outs_before, 'tx': tx, 'exc': exc, 'res_before': res_before, 'res_after': res_after,
+           'change_chain': change_chain, 'outs_before': outs_before, 'tx': tx, 'exc': exc, 'res_before': res_before, 'res_after': res_after,
            'shuffles': shuffles, 'funding': funding, 'change_acc': change_acc, 'pre': pre,
            'unsignable': [r['rid'] for r in ghost_rows]}
     known = {r['rid'] for r in spendable_rows(rows_before)}
@@ -410,7 +475,14 @@ def monitor(world, case, impl, obs):
     n_req = len(obs['outs'])
     outs_now = [(o.amount, bytes(o.script.source)) for o in tx.outputs]
     if outs_now[:n_req] != obs['outs_before']:
-        return 'the requested outputs are not the unchanged prefix of the transaction outputs'
+        detail = ''
+        for want, got in zip(obs['outs'], list(tx.outputs)[:n_req]):
+            if (want.amount, bytes(want.script.source)) != (got.amount, bytes(got.script.source)):
+                wn = want.script.values.get('claim_name') if hasattr(want.script, 'values') else None
+                gn = got.script.values.get('claim_name') if hasattr(got.script, 'values') else None
+                detail = ': requested amount %s name %r, on the wire amount %s name %r' % (want.amount, wn, got.amount, gn)
+                break
+        return 'the requested outputs are not the unchanged prefix of the transaction outputs' + detail
     n_pre = len(pre_ids)
     if [t.txo_ref.id for t in tx.inputs[:n_pre]] != [t.txo_ref.id for t in obs['pre']]:
         return 'the pre-chosen inputs are not the unchanged prefix of the transaction inputs'
@@ -453,8 +525,9 @@ def monitor(world, case, impl, obs):
             return 'fee %d exceeds the size/name fee %d by more than allowed (%d)' % (fee, required, bound - required)
     if extra:
         ch = extra[0]
-        if not ch.script.is_pay_pubkey_hash or ch.script.values['pubkey_hash'] not in world.change[case['change']]:
-            return 'the change output does not pay the change chain of the change account'
+        if not ch.script.is_pay_pubkey_hash or obs['change_chain'] != [(1, obs['change_acc'].id)]:
+            return ('the change output does not pay the change chain of the change account (its address is on %s; '
+                    '1 = change chain)' % (obs['change_chain'],))
         if ch.amount <= DUST:
             return 'change output of %d is not above the dust threshold' % ch.amount
     elif small:
@@ -618,7 +691,24 @@ def gen_case(rng, strategy, tier):
         rem = max(1, (want - fixed)) - per * len(case['outs'])
         for j, d in enumerate(case['outs']):
             d['amount'] = max(0, per + (rem if j == 0 else 0))
-    if (not any(p['kind'] == 'external' for p in case['pre']) and rng.random() < 0.3
+    if rng.random() < 0.12:
+        # through one of Transaction's own constructors, with names that are not in normalised form
+        via = rng.choice(['pay', 'purchase', 'support', 'claim_create', 'claim_update', 'claim_update'])
+        name = rng.choice(['Big-Buck-Bunny', '\u00c9t\u00e9-\u00e0-Paris', 'plain-lower-case', '\u00c9COLE', 'MiXeD\u00dc'])
+        amount = max(1000, case['outs'][0]['amount'] if case['outs'] else int(10 ** rng.uniform(3, 8)))
+        case['pre'] = []
+        case['outs'] = [{'kind': via, 'amount': amount, 'name': name}]
+        case['via'] = via
+        if via == 'claim_update':
+            txs.append({'height': 7, 'verified': True,
+                        'outs': [{'amount': int(10 ** rng.uniform(3, 9)), 'acct': funding[0], 'addr': 3, 'kind': 'claim', 'name': name}]})
+            case['outs'][0]['prev_ref'] = [len(txs) - 1, 0]
+        case['sign'] = via in ('pay', 'purchase')
+    if rng.random() < 0.1:
+        case['change_used'] = True
+    if case.get('via'):
+        pass
+    elif (not any(p['kind'] == 'external' for p in case['pre']) and rng.random() < 0.3
             and all(txs[p['ref'][0]]['outs'][p['ref'][1]].get('kind') != 'claim' for p in case['pre'])):
         case['sign'] = True
     elif GHOST in funding and not any(p['kind'] == 'external' for p in case['pre']) \
@@ -729,6 +819,10 @@ def histogram(run, case, impl, obs):
         run.count('signed')
     if case.get('locked'):
         run.count('locked-account')
+    if case.get('via'):
+        run.count('via Transaction.%s' % case['via'])
+    if case.get('change_used'):
+        run.count('all change addresses used before the build')
     for o in obs['outs']:
         if o.script.is_claim_name:
             nm = o.script.values['claim_name']
